@@ -258,8 +258,14 @@ def correspondence(ctx, corr):
             corr.expect_fail('by-construction', {'docstring': text, 'intended': expected}, 'tiling + intended kinds', prob,
                              'the parts of a parsed docstring must re-join to its lines with the intended kinds')
         for sdocs, ops, probs in r.get('seq', []):
-            corr.expect_fail('stateful', {'docstrings': sdocs, 'sequence': ops}, 'every parse of a docstring gives the same, correct parts',
-                             probs, 'parsing must be a function of the docstring (no state between calls)')
+            # what only differs from the MODEL (e.g. the wording of an error) is a broken correspondence, to be decided by the search;
+            # what the by-construction oracles say (re-join, same parse every time) is an expectation failure with its own replay
+            real = [q for q in probs if q.get('what') != 'parse differs from the model']
+            if real:
+                corr.expect_fail('stateful', {'docstrings': sdocs, 'sequence': ops}, 'every parse of a docstring gives the same, correct parts',
+                                 real, 'parsing must be a function of the docstring (no state between calls)')
+            else:
+                corr.disagree('stateful', {'docstrings': sdocs, 'sequence': ops}, probs[0].get('model'), probs[0].get('impl'))
         for text, prob in r['harness']:
             raise RuntimeError('generator self-check failed on %r: %s' % (text, prob))
         for s in r['samples'][:1]:
@@ -330,6 +336,56 @@ def _fails(text, expected=None):
     return None
 
 
+def _labels_plausible(lines, expected):
+    """a shrunk docstring must still be one the intended labels are RIGHT for: a source line that does not start with the `>>>`
+    prompt (a `...` continuation, an unprefixed line of a string literal) continues a source line, a want follows source or want"""
+    import ast as _ast
+    prev = None
+    run = []
+    runs = []
+    for l, e in zip(lines, expected):
+        kind = e[0]
+        if kind == 'src' and not l.lstrip().startswith('>>>') and prev != 'src':
+            return False
+        if kind == 'want' and prev not in ('src', 'want'):
+            return False
+        if kind == 'src':
+            t = l.lstrip()
+            run.append(t[4:] if t.startswith(('>>> ', '... ')) else ('' if t in ('>>>', '...') else l))
+        elif run:
+            runs.append(run)
+            run = []
+        prev = kind
+    if run:
+        runs.append(run)
+    for r in runs:
+        # every run of source lines, de-prompted, is still complete Python (no string or bracket left open by a dropped line)
+        try:
+            compile('\n'.join(r) + '\n', '<shrunk>', 'exec', flags=_ast.PyCF_ONLY_AST | _ast.PyCF_ALLOW_TOP_LEVEL_AWAIT, dont_inherit=True)
+        except SyntaxError:
+            return False
+    return True
+
+
+def _model_agrees(text, expected):
+    """the guard that keeps a shrunk docstring inside the property's quantifier: the intended labels must still be what the MODEL
+    (proved to label the grammar as intended, and tied to the unchanged code) says about the text, and the model must parse it;
+    a candidate the model itself disagrees with would 'fail' on the unchanged tree too and is no counterexample"""
+    try:
+        ml = driver.run_lines(['label\t' + enc(text)], jobs=1)[0]
+        if not ml.startswith('ok'):
+            return False
+        body = ml.split('\t', 1)[1] if '\t' in ml else ''
+        labs = [x.split(':')[0] for x in body.split('|')] if body else []
+        kinds = ['src' if l in ('dsrc', 'dcnt') else l for l in labs]
+        if kinds != [e[0] for e in expected]:
+            return False
+        mp = parsercorr.model_parse([text], lambda lines: driver.run_lines(lines, jobs=1))[0]
+        return parsercorr.normalize_error(mp).startswith('ok')
+    except Exception:
+        return False
+
+
 def _shrink_lines(text, expected):
     """drop whole lines (with their expectation) while the failure persists"""
     lines = text.split('\n')
@@ -343,7 +399,8 @@ def _shrink_lines(text, expected):
         ok = False
         try:
             _, L = O.prepared(t)
-            ok = O.expected_matches_lines(cand_e, L) and _fails(t, cand_e) is not None
+            ok = _labels_plausible(cand_l, cand_e) and O.expected_matches_lines(cand_e, L) and _model_agrees(t, cand_e) \
+                and _fails(t, cand_e) is not None
         except Exception:
             ok = False
         if ok:
@@ -381,6 +438,16 @@ def search(ctx, corr, broken):
     for d in corr.disagreements:
         if 'docstring' in d['input']:
             cands.append((d['input']['docstring'], None))
+        elif 'sequence' in d['input'] and len(found) < 2:
+            # the model and the code differ somewhere in this sequence (possibly only in wording): do the by-construction oracles object?
+            docs, ops = d['input']['docstrings'], d['input']['sequence']
+            probs = statefulparse.fails_sequence(docs, ops)
+            if probs:
+                docs, ops = _shrink_sequence(docs, ops)
+                probs = statefulparse.fails_sequence(docs, ops) or probs
+                found.append({'input': {'docstrings': docs, 'sequence': ops}, 'observed': probs[0],
+                              'expected_by_spec': 'every parse of a docstring returns the same, correct parts',
+                              'api': 'the sequence of calls, in one process'})
     rng = ctx.sub_rng('search')
     if not found:
         for _ in range(150):
